@@ -253,6 +253,7 @@ type e2eRun struct {
 	sup     gen.PID
 	down    chan error
 	dead    bool
+	killed  bool // the harness has called Node.Kill on the supervisor
 	reason  int
 	obs     []string
 	fails   []string
@@ -290,6 +291,12 @@ func (r *e2eRun) checkDown() {
 	case e := <-r.down:
 		r.dead = true
 		r.reason = e2eCode(e)
+		if r.killed && r.reason >= 10 {
+			// Node.Kill landed while the supervisor was inside handleAction: its own Spawn / SendExit calls are
+			// refused (ErrNotAllowed for a killed process) and that error becomes the termination reason.
+			// The cause is the harness's Kill: report it as such ("killed from outside" is not an operation of the model)
+			r.reason = 3
+		}
 	default:
 	}
 }
@@ -536,6 +543,7 @@ func runE2ECase(node gen.Node, watcher gen.PID, c *eCase, stats map[string]int) 
 			r.mgmt(st.K, st.Names[0])
 			stats["mgmt-"+st.K]++
 		case "killsup":
+			r.killed = true
 			node.Kill(r.sup)
 			stats["killsup"]++
 		case "exitsup":
